@@ -162,7 +162,7 @@ def applyExp (s : Sys) (r : Nat) (e : Exp) (arg : Nat) : Sys × String :=
     -- glue check: the incrementally built LP must equal what the proven one-shot `LP.processPlain` computes
     let glue := match th.oneShot with
       | some lp' =>
-        if lp'.hist.length == l.hist.length && lp'.hist.map Entry.tag == l.hist.map Entry.tag
+        if lp'.hist.length == l.hist.length && lp'.hist.map Entry.isPast == l.hist.map Entry.isPast
            && pastMsgs lp'.hist == pastMsgs l.hist && digest lp'.st == digest l.st && lp'.bound == l.bound
            && lp'.logs.map (fun (x : Nat × GState) => x.1) == l.logs.map (fun (x : Nat × GState) => x.1) then "" else " GLUE-MISMATCH"
       | none => " GLUE-UNDEFINED"
